@@ -145,7 +145,7 @@ def gen_config(rng, tier):
     cfg = {"sampler": sampler, "n": n, "regime": rng.choice(["each", "stream"]),
            "steps": 250 if sampler.startswith("t:") else 500, "flags": ["c16"]}
     if sampler in ("rcs", "rps", "t:rcs", "t:rps"):
-        cfg["r"] = rng.choice([None, 0, 0, 0] + list(range(n + 1))) if n != 2 else rng.choice([None, 0])
+        cfg["r"] = rng.choice([None, 0, 0, 0] + list(range(n + 1))) if n != 2 else rng.choice([None, 0, 0, 1])
     if sampler in ("onsite", "global", "brickwall"):
         cfg["dir"] = rng.choice(["forward", "backward", "alternate"])
         cfg["start"] = rng.choice(["zero", "zero", "one"])
@@ -334,6 +334,18 @@ class RunClass(Run):
                             self.bad("pauli_map_not_block_diagonal", images=sut.strs(imgs))
             cls = tuple(im[0] for im in imgs)
             sgn = tuple(im[1] for im in imgs)
+            if ps is not None and n <= 3 and s not in ("gate",):
+                prev = getattr(self, "prev_table", None)
+                if prev is not None:
+                    # consecutive draws must be independent: the sign pattern (and, for small
+                    # groups, the class) repeats only by chance
+                    self.bin("sign_repeat", sgn == prev[1])
+                    if n <= 2:
+                        self.bin("class_repeat", cls == prev[0])
+                self.prev_table = (cls, sgn)
+            if ps is not None and 2 <= n <= 4 and s in ("rcm", "t:rcm"):
+                for i in range(2 * n):
+                    self.bin("signletter:r%d" % i, (sgn[i], cls[i][0]))   # sign independent of the image
             if s in ("rcm", "t:rcm", "rcliff", "t:rcliff", "gate"):
                 if n == 1:
                     self.bin("class", cls)
@@ -380,6 +392,8 @@ class RunClass(Run):
                 self.bad("state_rank", want=want_r or 0, got=a.rank)
             if s in ("rcs", "t:rcs") and n == 2 and a.rank == 0:
                 self.bin("state", a.key())
+            if s in ("rcs", "t:rcs", "rps", "t:rps") and n == 2 and a.rank == 1:
+                self.bin("state_r1", a.key())     # random MIXED states: 15 strings x 2 signs (6 for product maps)
             if s in ("rps", "t:rps") and n <= 2 and a.rank == 0:
                 self.bin("state", a.key())        # uniform over the 6^n product stabilizer states
             if s == "rbs":
@@ -433,7 +447,7 @@ EXPECTED_BINS = {
     ("row4", 3, "cliff"): 63, ("row5", 3, "cliff"): 63,
     ("class", 1, "pauli"): 6, ("class", 2, "pauli"): 36, ("class", 3, "pauli"): 216, ("sign", 1, "any"): 4,
     ("state", 2, "cliffstate"): 60, ("state", 2, "productstate"): 36,
-    ("state", 1, "pstate"): 6, ("state", 2, "pstate"): 36,
+    ("state", 1, "pstate"): 6, ("state", 2, "pstate"): 36, ("state_r1", 2, "cliffstate"): 30, ("state_r1", 2, "pstate"): 6,
     ("bits", 3, "rbs"): 8, ("coins", 4, "coin"): 16, ("fixcoin", 1, "coinfix"): 2, ("fixcoin", 2, "coinfix"): 2,
     ("fixcoin", 3, "coinfix"): 2, ("fixcoin", 4, "coinfix"): 2, ("pair_joint", 2, "pair"): 120, ("pair_first", 2, "pair"): 15,
 }
@@ -495,6 +509,41 @@ def batch_oracles(merged, mode):
         bins = EXPECTED_BINS.get((stat, n, fam)) or EXPECTED_BINS.get((stat, n, "any"))
         if stat.startswith("signbit"):
             bins = 2
+        if stat in ("sign_repeat", "class_repeat"):
+            fam0 = _family(sampler)
+            if stat == "sign_repeat":
+                p0 = 2.0 ** (-2 * n)
+            else:
+                nb = EXPECTED_BINS.get(("class", n, fam0))
+                if nb is None:
+                    continue
+                p0 = 1.0 / nb
+            if total * p0 < 5:
+                continue
+            k = cnt.get(True, 0)
+            z = abs(k - total * p0) / (total * p0 * (1 - p0)) ** 0.5
+            evaluated[0] += 1
+            out.append((name, z <= 6.2, {"statistic": "frequency with which a draw repeats the previous draw (z-score)",
+                                         "sampler": sampler, "N": n, "regime": regime, "stat": stat, "n": total,
+                                         "repeats": k, "expected": total * p0, "z": z, "threshold_sigma": 6.2}))
+            continue
+        if stat.startswith("signletter:"):
+            if total < 800:
+                continue
+            pI = (4.0 ** (n - 1) - 1) / (4.0 ** n - 1)
+            pL = 4.0 ** (n - 1) / (4.0 ** n - 1)
+            x2 = 0.0
+            for k in (0, 2):
+                for a in range(4):
+                    e = total * 0.5 * (pI if a == 0 else pL)
+                    x2 += (cnt.get((k, a), 0) - e) ** 2 / e
+            thr = _threshold(7)
+            evaluated[0] += 1
+            if x2 > thr or stat.endswith(":r0"):
+                out.append((name, x2 <= thr, {"statistic": "chi2 of (sign bit, first letter) of one image against independence",
+                                             "sampler": sampler, "N": n, "regime": regime, "stat": stat, "n": total,
+                                             "chi2": round(x2, 2), "threshold": round(thr, 2), "false_alarm_level": 1e-9}))
+            continue
         if stat.startswith("letter:"):
             if total < 400:
                 continue
